@@ -488,8 +488,18 @@ def run_check(pid, tier, body, needs_native=False, regen=None, level_partial=Non
         body(ctx)
     except subprocess.TimeoutExpired as e:
         infra_error = f"timeout: {e}"
-    except Exception:
-        infra_error = traceback.format_exc()
+    except Exception as e:
+        # an exception that comes out of the code under test (innermost frames inside the tree being checked) on a call the
+        # harness did not guard is not an infrastructure failure: the harness/model no longer describes the code.  It is
+        # reported as a broken correspondence (exit 1, `no-failing-input-found` unless an oracle already found an input);
+        # anything else (a bug of the harness itself, a missing tool) stays an infrastructure error (exit 2).
+        tb = traceback.extract_tb(e.__traceback__)
+        inner = [fr.filename for fr in tb[-6:]]
+        if any(str(f).startswith(str(REPO) + os.sep) for f in inner) and not isinstance(e, (MemoryError, KeyboardInterrupt)):
+            ctx.disagree("the code under test raised an exception on a call the harness did not expect to fail (run aborted here)",
+                         {"exception": f"{type(e).__name__}: {e}"[:500], "traceback": traceback.format_exc()[-1500:]})
+        else:
+            infra_error = traceback.format_exc()
     if infra_error is not None:
         print(f"INFRASTRUCTURE-ERROR property={pid}\n{infra_error}", file=sys.stderr)
         return 2
